@@ -665,3 +665,102 @@ func (h *H) SpecialsOn(b *hblk, kinds []string, nh int) []interfaces.Transaction
 	}
 	return txs
 }
+
+// ---------------------------------------------------------------- readers interleaved with the chain, sibling inputs (C06c / C14c classes)
+
+// ProcessDuringLookup submits hb in the middle of a transaction lookup: the
+// TxCache is dropped (cache miss), GetTransaction of a transaction of the
+// current tip block is started, and right after its database view returned
+// the block is processed (possibly disconnecting that tip block); then the
+// lookup finishes.  Queries are observed again afterwards.
+func (h *H) ProcessDuringLookup(hb *hblk) error {
+	tip := h.tip()
+	target := tip.txs[h.Rng.Intn(len(tip.txs))].tx.Hash()
+	h.F.DropTxCache()
+	var err error
+	ran := false
+	h.F.AfterNextView(func() { ran = true; err = h.Process(hb) })
+	h.F.Tx(target)
+	h.F.AfterNextView(nil)
+	if !ran {
+		err = h.Process(hb)
+	}
+	h.note("(block %d was processed in the middle of GetTransaction(tx %d), cache miss)", hb.id+1, h.refID(target))
+	h.Observe()
+	return err
+}
+
+// CorpusRacyLookup: b1-b2(T) main chain, competing c2-c3 from b1; c3 (which
+// disconnects b2) is processed in the middle of a cache-missing lookup of T
+// and of b2's coinbase; then the chain moves on and everything is queried.
+func (h *H) CorpusRacyLookup() {
+	g := h.GenesisBlk()
+	b1 := h.validBlock(g, 0)
+	h.Process(b1)
+	b2 := h.validBlock(b1, 0)
+	h.Process(b2)
+	b3 := h.validBlock(b2, 2)
+	h.Process(b3)
+	c3 := h.validBlock(b2, 1)
+	h.Process(c3)
+	c4 := h.validBlock(c3, 1)
+	h.ProcessDuringLookup(c4) // reorganisation: b3 disconnected while one of its transactions is being looked up
+	h.Process(h.validBlock(h.tip(), 1))
+	d := h.validBlock(h.tip().parent, 1)
+	h.Process(d)
+	h.ProcessDuringLookup(h.validBlock(d, 1))
+	h.Process(h.validBlock(h.tip(), 2))
+}
+
+// CorpusSiblings: a parent P with four outputs; P:1 is spent in a block; then
+// transactions with several inputs on P in every order (unspent before /
+// after / around the spent one) are offered in blocks and to the mempool;
+// after a reorganisation that un-spends P:1 and spends P:2 the same again.
+func (h *H) CorpusSiblings() {
+	f := h.F
+	g := h.GenesisBlk()
+	b1 := h.validBlock(g, 0)
+	h.Process(b1)
+	total := f.Genesis.Transactions[0].Outputs()[0].Value
+	fan, _ := f.Transfer([]fixture.In{{Op: f.GenesisOut, Key: 0}}, []fixture.Out{{Key: 1, Value: 500000}, {Key: 1, Value: 600000}, {Key: 2, Value: 700000}, {Key: 3, Value: 800000}, {Key: 0, Value: total - 2600000 - 100}}, 930000)
+	b2 := h.BuildOn(b1, []interfaces.Transaction{fan}, "", fixture.BlockOpt{Miner: 1})
+	h.Process(b2)
+	P := func(i uint16, k int) fixture.In { return fixture.In{Op: ctypes.OutPoint{TxID: fan.Hash(), Index: i}, Key: k} }
+	vals := []common.Fixed64{500000, 600000, 700000, 800000}
+	keys := []int{1, 1, 2, 3}
+	spend := func(tag uint64, idx ...uint16) interfaces.Transaction {
+		var ins []fixture.In
+		var tot common.Fixed64
+		for _, i := range idx {
+			ins = append(ins, P(i, keys[i]))
+			tot += vals[i]
+		}
+		tx, _ := f.Transfer(ins, []fixture.Out{{Key: 0, Value: tot - 300}}, tag)
+		return tx
+	}
+	s1 := spend(930001, 1)
+	b3 := h.BuildOn(b2, []interfaces.Transaction{s1}, "", fixture.BlockOpt{Miner: 2})
+	h.Process(b3)
+	try := func(base uint64, spentIdx uint16, free []uint16) {
+		orders := [][]uint16{{free[0], spentIdx}, {spentIdx, free[0]}, {free[0], spentIdx, free[1]}, {free[0], free[1], spentIdx}}
+		for k, o := range orders {
+			tx := spend(base+uint64(k), o...)
+			h.Process(h.BuildOn(h.tip(), []interfaces.Transaction{tx}, "sibling", fixture.BlockOpt{Miner: 2}))
+			if h.Mode.Pool {
+				h.Submit(tx, "invalid")
+			}
+		}
+	}
+	try(930010, 1, []uint16{0, 2})
+	// competing branch from b2: P:2 is spent there, P:1 is not
+	c3 := h.BuildOn(b2, []interfaces.Transaction{spend(930020, 2)}, "", fixture.BlockOpt{Miner: 3})
+	h.Process(c3)
+	h.Process(h.validBlock(c3, 0)) // reorganisation
+	try(930030, 2, []uint16{1, 3})
+	if h.Mode.Pool { // an output of P claimed by a pool transaction, its siblings free
+		h.Submit(spend(930040, 0), "valid")
+		h.Submit(spend(930041, 1, 0), "conflict")
+		h.Submit(spend(930042, 0, 3), "conflict")
+	}
+	h.Process(h.validBlock(h.tip(), 1))
+}
